@@ -84,6 +84,40 @@ Definition configure (decls : list (string * Z * bool)) (cfg : list (string * Z)
   | Some env => Some (fold_left run_decl decls env)
   end.
 
+(* ---- a user module that forwards a built-in module (`@forward "sass:math" [as p-*] [show|hide ..]`),
+   used as `@use "numbers"`.  Scope::set_variable refuses an assignment through a namespace when the
+   module scope holds the internal variable `@scope_name@` (Scope::builtin_module defines it).  That
+   variable travels like any other variable: expose_star copies it, ScopeRef::expose filters it with
+   allow_var, the Prefix arm renames it.  So the guard survives a plain or `hide` forward, and is lost
+   with `show` or a prefix; when it survives it also blocks the user module's own variables.
+   `@use "numbers" with ($pi: 3)` predefines an own variable of the user module, which wins over the
+   forwarded one in with_forwarded (expose_star(forwarded) then expose_star(self)). ---- *)
+Definition marker_name : string := "@scope_name@".
+Definition marker_survives (pfx : option string) (e : expose) : bool :=
+  match pfx with Some _ => false | None => allow_var e marker_name end.
+
+Inductive fb_action : Type :=
+| FAssignBuiltin      (* numbers.$<p>pi: 3;  a { x: numbers.$<p>pi } *)
+| FAssignOwn          (* numbers.$own: 3;    a { x: numbers.$own }   ($own: 1 !default in the user module) *)
+| FConfigBuiltin      (* @use "numbers" with ($<p>pi: 3);  a { x: numbers.$<p>pi } *)
+| FReadBuiltin        (* a { x: numbers.$<p>pi } *)
+| FConfigOwn.         (* @use "numbers" with ($own: 3);  a { x: numbers.$own } *)
+
+Inductive fb_res : Type := FOk (v : Z) | FErr.      (* v = 0 stands for the value of math.$pi *)
+
+Definition pfx_name (pfx : option string) (n : string) : string :=
+  match pfx with None => n | Some p => String.append p n end.
+
+Definition fwd_builtin (a : fb_action) (pfx : option string) (e : expose) : fb_res :=
+  let visible := allow_var e (pfx_name pfx "pi") in
+  match a with
+  | FAssignBuiltin => if visible then (if marker_survives pfx e then FErr else FOk 3) else FErr
+  | FAssignOwn => if marker_survives pfx e then FErr else FOk 3
+  | FConfigBuiltin => FOk 3
+  | FReadBuiltin => if visible then FOk 0 else FErr
+  | FConfigOwn => FOk 3
+  end.
+
 (* ---- built-in modules: get_global_module + `with` non-empty = Invalid::ConfigBuiltin;
    assignment through a module that has @scope_name@ = ScopeError::ModifiedBuiltin ---- *)
 Definition builtin_configure (with_nonempty : bool) : bool := negb with_nonempty.   (* true = ok *)
